@@ -138,8 +138,24 @@ class Engine:
             # pure bit-vector kernels with deep multiplication chains: z3's default preprocessing flattens
             # bvmul n-arily (b^(2^k) -> 2^k factors) and never returns; this pipeline keeps the DAG
             s.solver = z3.Then(z3.With('simplify', flat=False, hoist_mul=False, som=False), 'bit-blast', 'sat').solver()
+        elif cfg.solver == 'fpsat':
+            # bit-vector + IEEE floating point (+ UFs over bit-vectors): eager translation to SAT
+            s.solver = z3.Then('simplify', 'fpa2bv', 'simplify', 'ackermannize_bv', 'simplify', 'bit-blast', 'sat').solver()
+        elif cfg.solver == 'qffp':
+            s.solver = z3.Tactic('qffp').solver()
+        elif cfg.solver == 'qfbv':
+            s.solver = z3.Then('simplify', 'fpa2bv', 'qfbv').solver()
+        elif cfg.solver == 'qfaufbv':
+            s.solver = z3.Then('simplify', 'fpa2bv', 'qfaufbv').solver()
         else:
             s.solver = z3.Solver()
+        s.fallback = None
+        s.nfallback = 0
+        if cfg.solver == 'default' and cfg.mode == 'BITS':
+            # BITS mode default: eager SAT pipeline first (IEEE FP queries: 0.5 s instead of 60 s), SMT core as fallback
+            s.fallback = s.solver
+            s.solver = z3.Then('simplify', 'fpa2bv', 'simplify', 'ackermannize_bv', 'simplify', 'bit-blast', 'sat').solver()
+            s.fallback.set('timeout', cfg.query_timeout_ms)
         s.solver.set('timeout', cfg.query_timeout_ms)
         s.nq = {'sat': 0, 'unsat': 0, 'unknown': 0}
         s.tq = 0.0
@@ -164,22 +180,38 @@ class Engine:
     # ------------------------------------------------------------------ solver
     def check(s, st, extra=None, want_model=False):
         t = time.time()
-        s.solver.push()
-        try:
-            for c in st.pc:
-                s.solver.add(c)
-            if extra is not None:
-                s.solver.add(extra)
-            r = s.solver.check()
-            rs = 'sat' if r == z3.sat else 'unsat' if r == z3.unsat else 'unknown'
-            m = s.solver.model() if (r == z3.sat and want_model) else None
-        finally:
-            s.solver.pop()
+        rs, m = s._check_with(s.solver, st, extra, want_model)
+        if rs == 'unknown' and s.fallback is not None:
+            # the eager SAT pipeline gives up on some shapes (too many UF applications, ...): ask the SMT core
+            rs, m = s._check_with(s.fallback, st, extra, want_model)
+            s.nfallback += 1
         s.tq += time.time() - t
         s.nq[rs] += 1
         if want_model:
             return rs, m
         return rs
+
+    def _check_with(s, solver, st, extra, want_model):
+        solver.push()
+        try:
+            for c in st.pc:
+                solver.add(c)
+            if extra is not None:
+                solver.add(extra)
+            try:
+                r = solver.check()
+            except z3.Z3Exception:
+                return 'unknown', None
+            rs = 'sat' if r == z3.sat else 'unsat' if r == z3.unsat else 'unknown'
+            m = None
+            if r == z3.sat and want_model:
+                try:
+                    m = solver.model()
+                except z3.Z3Exception:
+                    return 'unknown', None
+            return rs, m
+        finally:
+            solver.pop()
 
     def fresh_name(s, base):
         s.nfresh += 1
@@ -543,6 +575,13 @@ class Engine:
 
     def load(s, st, p, ty, stack=None):
         rt = s.L.res(ty)
+        if isinstance(p, PtrIte):
+            # feasibility first: the not-taken side may be an invalid pointer
+            ra = s.check(st, zbool(p.c)); rb = s.check(st, z3.Not(zbool(p.c)))
+            if ra == 'unsat': return s.load(st, p.b, ty, stack)
+            if rb == 'unsat': return s.load(st, p.a, ty, stack)
+            va = s.load(st, p.a, ty, stack); vb = s.load(st, p.b, ty, stack)
+            return s.select(st, p.c, va, vb, rt)
         if rt.k == 'struct':
             return Agg([s.load(st, s.padd(st, p, s.L.field_off(rt, i)), f, stack) for i, f in enumerate(rt.fields)])
         if rt.k in ('array', 'vector'):
@@ -561,6 +600,11 @@ class Engine:
 
     def store(s, st, p, ty, v, stack=None):
         rt = s.L.res(ty)
+        if isinstance(p, PtrIte):
+            oa = s.load(st, p.a, ty, stack); ob_ = s.load(st, p.b, ty, stack)
+            s.store(st, p.a, ty, s.select(st, p.c, v, oa, rt), stack)
+            s.store(st, p.b, ty, s.select(st, p.c, ob_, v, rt), stack)
+            return
         if rt.k == 'struct':
             for i, f in enumerate(rt.fields):
                 s.store(st, s.padd(st, p, s.L.field_off(rt, i)), f, v.e[i], stack)
@@ -581,6 +625,7 @@ class Engine:
 
     def padd(s, st, p, k):
         if k == 0: return p
+        if isinstance(p, PtrIte): return p.map(lambda q: s.padd(st, q, k))
         return Ptr(p.obj, s.A.off_add(st, p.off, k, 64, 1))
 
     # symbolic-offset access --------------------------------------------------
@@ -618,12 +663,14 @@ class Engine:
         return r
 
     def ite_val(s, st, c, a, b, tk, bits):
+        if isinstance(a, PtrIte) or isinstance(b, PtrIte):
+            return PtrIte(c, a, b)
         if isinstance(a, Ptr) or isinstance(b, Ptr):
             if isinstance(a, Ptr) and isinstance(b, Ptr) and a.obj == b.obj:
                 if isinstance(a.off, int) and isinstance(b.off, int) and a.off == b.off:
                     return a
                 return Ptr(a.obj, s.A.ite(st, c, a.off, b.off, 64) if s.A.name == 'BITS' else z3.If(c, a.off, b.off))
-            raise Inconclusive('select between pointers to different objects')
+            return PtrIte(c, a, b)
         if tk == 'int' and bits == 1:
             if isinstance(a, int) and isinstance(b, int) and a == b: return a
             return z3.If(c, zbool(a), zbool(b))
@@ -681,7 +728,15 @@ class Engine:
         s.record_access(st, src, sob, False)
         s.record_access(st, dst, dob, True)
         if so is None or do is None:
-            raise Inconclusive(f'{what} with a symbolic address')
+            # symbolic address: word-wise through the symbolic-offset load/store path
+            chunk = 8 if n % 8 == 0 else 4 if n % 4 == 0 else 1
+            ity = Ty('int', 8 * chunk)
+            if s.A.real:
+                raise Inconclusive(f'{what} with a symbolic address in INT/REAL mode')
+            vals = [s.load(st, s.padd(st, src, i), ity, stack) for i in range(0, n, chunk)]
+            for k, i in enumerate(range(0, n, chunk)):
+                s.store(st, s.padd(st, dst, i), ity, vals[k], stack)
+            return
         if sob is dob or src.obj == dst.obj:
             sob = dob
         cells = []
@@ -781,6 +836,8 @@ class Engine:
 
     # ------------------------------------------------------------------ GEP
     def gep(s, st, base, bt, idx, ibits):
+        if isinstance(base, PtrIte):
+            return base.map(lambda q: s.gep(st, q, bt, idx, ibits))
         if not isinstance(base, Ptr):
             base = Ptr(None, base)
         off = base.off
